@@ -333,21 +333,18 @@ func (e *ExecutorV3) RunTx(context state.Interface, rawTx []byte, rewardPool *bi
 					var resp *Response
 					resp, symbolPrice, _ = CheckSwap(checkState.Swap().GetSwapper(commissions.Coin, types.GetBaseCoinID()), checkState.Coins().GetCoin(commissions.Coin), checkState.Coins().GetCoin(0), symbolPrice, big.NewInt(0), false)
 					if resp != nil {
-						return *resp
+						symbolPrice = nil
 					}
 				}
-				if symbolPrice == nil || symbolPrice.Sign() != 1 {
-					return Response{
-						Code: code.CommissionCoinNotSufficient,
-						Log:  fmt.Sprint("Not possible to pay commission"),
-						Info: EncodeError(code.NewCommissionCoinNotSufficient("", "")),
-					}
+				// the transaction has already been applied: a ticker fee that is zero (gas price 0, free
+				// ticker) or cannot be priced is not burned; it must not turn the response into a failure
+				if symbolPrice != nil && symbolPrice.Sign() == 1 {
+					rewardPool.Sub(rewardPool, symbolPrice)
+					deliverState.Accounts.AddBalance([20]byte{}, 0, symbolPrice)
+					response.Tags = append(response.Tags,
+						abcTypes.EventAttribute{Key: []byte("tx.burned_for_symbol"), Value: []byte(symbolPrice.String())},
+					)
 				}
-				rewardPool.Sub(rewardPool, symbolPrice)
-				deliverState.Accounts.AddBalance([20]byte{}, 0, symbolPrice)
-				response.Tags = append(response.Tags,
-					abcTypes.EventAttribute{Key: []byte("tx.burned_for_symbol"), Value: []byte(symbolPrice.String())},
-				)
 			}
 		}
 	}
